@@ -125,7 +125,7 @@ MonoOk(old, new, fscale) ==
 RelIncrease(old, new, fscale) ==
   IF IsFin(old) /\ IsFin(new) THEN RToStr(RDiv(RSub(new.v, old.v), RMax(old.v, fscale))) ELSE XStr(new)
 
-\* iterates (sequences of quads): equal bitwise / equal up to 64 ulp of the largest coefficient (A1: "null step")
+\* iterates (sequences of quads): equal bitwise / equal up to 64 ulp of the largest coefficient ("null step")
 RECURSIVE MaxAbsQ(_, _)
 MaxAbsQ(xs, i) == IF i > Len(xs) THEN R1 ELSE RMax(IF FinQ(xs[i]) THEN RAbs(RFromDouble(xs[i])) ELSE R0, MaxAbsQ(xs, i + 1))
 RECURSIVE MaxDiffQ(_, _, _)
